@@ -6,6 +6,7 @@ import OptreeModel.Model.Ops
 import OptreeModel.Model.OrderSM
 import OptreeModel.Model.RegSM
 import OptreeModel.Model.Twins
+import OptreeModel.Model.Ravel
 import OptreeModel.Generated.Twins
 import OptreeModel.Generated.Hash
 
@@ -367,6 +368,25 @@ def evalOp (st : DriverState) : Sexp → Res Sexp
       let t ← Res.ofDec (decObj tree)
       let r ← Res.ofExcept (treeReplaceNones cfg (.leaf 0 777777) t)
       pure (encOk [encObj r])
+  | .list (.atom "ravel" :: to :: dflt :: arrs) => do
+      let to ← Res.ofDec (decNat to)
+      let dflt ← Res.ofDec (decNat dflt)
+      let decArr : Sexp → Dec Arr := fun x => match x with
+        | .list [.atom "arr", .list shape, dt, .list data] => do
+            let shape ← decList decNat shape; let dt ← decNat dt; let data ← decList decInt data
+            pure ⟨shape, dt, data⟩
+        | _ => .error "array expected"
+      let encArr : Arr → Sexp := fun a => l [.atom "arr", l (a.shape.map nat), nat a.dtype, l (a.data.map Sexp.int)]
+      let leaves ← Res.ofDec (decList decArr arrs)
+      let lib : ArrLib := { cast := fun _ _ v => v, defaultDtype := dflt }
+      let (flat, u) := ravelLeaves lib to leaves
+      let encR : Except Err (List Arr) → Sexp := fun r => match r with
+        | .ok as => l (.atom "ok" :: as.map encArr)
+        | .error e => encErr e
+      let longer : Arr := { flat with shape := [flat.data.length + 1], data := flat.data ++ [0] }
+      let otherDt : Arr := { flat with dtype := if flat.dtype == 8 then 6 else 8 }
+      pure (encOk [encArr flat, encR (unravel lib u flat), encR (unravel lib u longer),
+                   (match unravel lib u otherDt with | .ok _ => .atom "accepted" | .error e => encErr e)])
   | .list (.atom "sorttwin" :: keys) => do
       let ks ← Res.ofDec (decList decKey keys)
       pure (encOk [encKeys (cxxSort Generated.sortRestores (fun l => l.reverse) (fun l => l) ks),
